@@ -23,7 +23,7 @@ RULE = ('DAYS in {none,0,1,2,7,365,4000000} x multisets of size 1..3 (thorough 1
 NOW = '2024-05-06T07:08:09'
 DAYS = [None, 0, 1, 2, 7, 365, 4000000]
 CLASSES = ['lim-1s', 'lim', 'lim+1s', 'now', 'farpast', 'future', 'missing', 'garbage', 'emptyval', 'feb30', 'fraction',
-           'trailsp', 'unpadded', 'two:old,bad', 'two:bad,old']
+           'trailsp', 'unpadded', 'two:old,bad', 'two:bad,old', 'formfeed-after-date', 'formfeed-in-comment']
 TDS = ['home', 'top', 'alt', 'mixed', 'mixed-after-insecure', 'tdopt-dotdot']
 
 
@@ -39,6 +39,8 @@ def cases(tier):
         for days in DAYS:
             for n in range(1, maxn + 1):
                 for ms in itertools.combinations_with_replacement(range(len(CLASSES)), n):
+                    if n >= 3 and tier != 'thorough' and any(CLASSES[x].startswith('formfeed') for x in ms):
+                        continue          # the two newest classes appear in multisets of size <= 2 only in the quick tier
                     seams = ['fake', 'env'] if (tier == 'thorough' and n <= 2) else [('fake', 'env')[i % 2]]
                     i += 1
                     for seam in seams:
@@ -55,7 +57,9 @@ def date_lines(cls, days):
     lim = now - datetime.timedelta(days=d)
     f = lambda t: t.strftime('%Y-%m-%dT%H:%M:%S')
     s = datetime.timedelta(seconds=1)
-    return {'lim-1s': ['DeletionDate=' + f(lim - s)], 'lim': ['DeletionDate=' + f(lim)], 'lim+1s': ['DeletionDate=' + f(lim + s)],
+    return {'formfeed-after-date': ['DeletionDate=1970-01-01T00:00:00\x0c'],          # not a date: a form feed belongs to the value (only \n ends a line)
+            'formfeed-in-comment': ['X-Comment=a\x0cDeletionDate=1970-01-01T00:00:00', 'DeletionDate=' + NOW],          # ... and does not start a new line either
+            'lim-1s': ['DeletionDate=' + f(lim - s)], 'lim': ['DeletionDate=' + f(lim)], 'lim+1s': ['DeletionDate=' + f(lim + s)],
             'now': ['DeletionDate=' + NOW], 'farpast': ['DeletionDate=1970-01-01T00:00:00'],
             'future': ['DeletionDate=' + f(now + datetime.timedelta(days=1))], 'missing': [], 'garbage': ['DeletionDate=yesterday'],
             'emptyval': ['DeletionDate='], 'feb30': ['DeletionDate=2020-02-30T00:00:00'], 'fraction': ['DeletionDate=2020-01-01T00:00:00.5'],
@@ -108,9 +112,12 @@ def run_case(c):
     now = NOW
     if c['td'] in ('top', 'alt', 'mixed') and len(c['ms']) % 2 == 0:
         env['TRASH_VOLUMES'] = '//mnt//v1/'          # the same volume, named through the environment with doubled and trailing slashes
+    now_eff = NOW
     if c['seam'] == 'env':
         env['TRASH_DATE'] = NOW
         now = '2001-01-01T00:00:00'        # the fake clock says something else; TRASH_DATE must win
+    elif len(c['ms']) % 3 == 0:
+        now = now_eff = NOW + '.500000'      # the real clock is rarely at a whole second: an entry dated exactly at the limit second IS older than the limit then
     with cell.Sandbox(W.spec()) as sb:
         before = sb.snapshot()
         r = sb.run(argv, env=env, now=now, cwd='/', stdin='y\n' if c.get('ask') else None)
@@ -120,7 +127,7 @@ def run_case(c):
     worst = None
     dcls = 'none' if c['days'] is None else ('huge' if c['days'] > 100000 else str(c['days']))
     for nm, cls, raw, t in ents:
-        want = age.verdict(raw, NOW, c['days'])
+        want = age.verdict(raw, now_eff, c['days'])
         got = scen.entry_state(before, after, t, nm)
         detail['entries'].append([nm, cls, want, got])
         nts.add('%s|%s|%s' % (dcls, cls, got))
